@@ -107,7 +107,7 @@ PROPS = {
         "assumptions": ["coordinates are dyadic so binary64 arithmetic is exact; with astronomically large repeat counts only the integer counts are compared"],
     },
     "C02": {
-        "lean_modules": ["StimModel.Props.C02", "StimModel.Core.FrameRel", "StimModel.Generated.FrameThms", "StimModel.Generated.GateThms", "StimModel.Props.GF2", "StimModel.Props.GF2c", "StimModel.Props.Record", "StimModel.Props.RecordBatch"],
+        "lean_modules": ["StimModel.Props.C02", "StimModel.Core.FrameRel", "StimModel.Generated.FrameThms", "StimModel.Generated.GateThms", "StimModel.Props.GF2", "StimModel.Props.GF2c", "StimModel.Props.Record", "StimModel.Props.RecordBatch", "StimModel.Props.C02b"],
         "areas": [
             {"area": "gatetab", "n": 1, "extra": ["Frame"]},
             {"area": "fsim", "n": {"quick": 500, "thorough": 10000}, "replayable": True},
